@@ -37,7 +37,7 @@ func relayCfg(id, tier string) relay.Config {
 		}
 		return c
 	case "C04":
-		c := relay.Config{Prop: id, Chains: 3, MaxSends: 3, Depth: 6,
+		c := relay.Config{Prop: id, Chains: 3, MaxSends: 3, Depth: 5,
 			Sends: []string{"A B erc20 1", "A C erc20 1", "A B unknown 1", "A B erc20 20000", "A B feeonly1 1", "A B direct 1", "B A erc20+agentgood 3", "B A erc20+agentbad 3", "A B native 1"},
 			RecvForms: []string{"g1"}, AckForms: []string{"g1"}}
 		if tier == "thorough" {
